@@ -456,6 +456,9 @@ def structured_cases(tier):
 
 # ---------------------------------------------------------------- expression statements (pointless or not)
 
+EXPR_OPS = ('+', '&&', '==', '<')
+
+
 def expr_trees(n):
     """Every expression tree with exactly n internal nodes over {+, &&, unary -, !, group} and leaves {call, 0, x}."""
     leaves = [{'function': {'name': 'systemLog', 'args': [{'string': 'note'}]}}, {'number': 0}, {'variable': 'x'}]
@@ -469,7 +472,7 @@ def expr_trees(n):
     for k in range(n):
         for left in expr_trees(k):
             for right in expr_trees(n - 1 - k):
-                for op in ('+', '&&'):
+                for op in EXPR_OPS:
                     out.append({'binary': {'op': op, 'left': left, 'right': right}})
     return out
 
@@ -629,7 +632,7 @@ def families(tier):
         Family('usesites', fam_usesites, [(maxn, idxs) for idxs in split(list(range(nuse)), 32)],
                f'a function-local variable / an argument read exactly once, inside every expression tree with <= {maxn} internal nodes, in a return, an assignment, a jump condition and a call argument: an "unused" verdict is refuted by renaming the definition', expected=nuse * len(USE_KINDS) * 2),
         Family('exprstmts', fam_exprstmt, [(maxn, idxs) for idxs in split(list(range(ntrees)), 32)],
-               f'every expression tree with <= {maxn} internal nodes over {{+, &&, unary -, !, group}} and leaves {{logging call, 0, x}} as an expression statement, at global scope and inside a function: a "pointless" verdict is justified by deleting the statement', expected=2 * ntrees),
+               f'every expression tree with <= {maxn} internal nodes over {{+, &&, ==, <, unary -, !, group}} and leaves {{logging call, 0, x}} as an expression statement, at global scope and inside a function: a "pointless" verdict is justified by deleting the statement', expected=2 * ntrees),
         Family('jumpmodels', fam_jump, shards, f'every list of length <= {maxlen} over the {nq}-statement alphabet (C08 alphabet + dangling jumps, third label, pointless statement, 7 function statements with duplicate names/arguments and label-bearing bodies)',
                expected=sum(nq ** k for k in range(maxlen + 1))),
         Family('structured', fam_structured, split(sc, 48), 'parsed nesting chains (depth per tier) and every small program wrapped in a function with an unused argument, an unused variable and a pointless statement', expected=len(sc)),
